@@ -358,6 +358,9 @@ func runCheck(prop, tier string) int {
 	for _, k := range keys {
 		ol := a.viols[k]
 		rf := sim.ReplayFile{Property: ol.Viol.Property, Engine: cfg.Engine, Oracle: ol.Viol.Oracle, Signature: ol.Viol.Signature, Message: ol.Viol.Message, Seed: ol.Seed, Run: ol.Run, Plan: ol.Plan, Steps: ol.Steps}
+		if cfg.Race && len(ol.Log) > 0 {
+			rf.Message += "\n" + ol.Log[0]
+		}
 		name := fmt.Sprintf("%s-%d-%d-%s.json", prop, ol.Seed, ol.Run, sim.Hash(k))
 		path := filepath.Join(verifDir, "replays", name)
 		rb, _ := json.MarshalIndent(rf, "", " ")
@@ -543,7 +546,7 @@ func panicSite(s string) string {
 	for _, l := range strings.Split(s, "\n") {
 		l = strings.TrimSpace(l)
 		if strings.HasPrefix(l, "github.com/spq/pkappa2/internal") || strings.HasPrefix(l, "github.com/spq/pkappa2/cmd") {
-			if i := strings.Index(l, "("); i > 0 {
+			if i := strings.LastIndex(l, "("); i > 0 {
 				l = l[:i]
 			}
 			return strings.TrimPrefix(l, "github.com/spq/pkappa2/")
